@@ -4,6 +4,7 @@ import (
 	"fmt"
 	"regexp"
 	"strings"
+	"verif/drv"
 
 	"verif/internal/refmodel"
 	"verif/internal/space"
@@ -16,7 +17,7 @@ func init() {
 		"non-trivial = differs from base; distinct = (source hash, document)"
 }
 
-var c09Devs = []string{"NULL_OBJECT_VALIDATES_ZERO", "ANYOF_MERGED_NO_DEFAULTS", "INLINE_STRUCT_NO_DEFAULTS", "DEFAULT_ENUM_NULL_REJECTED", "DEFAULT_MAP_EMPTIED", "SIZED_INT_ENUM_REJECTS_ALL"}
+var c09Devs = []string{"NULL_OBJECT_VALIDATES_ZERO", "ANYOF_MERGED_NO_DEFAULTS", "INLINE_STRUCT_NO_DEFAULTS", "DEFAULT_ENUM_NULL_REJECTED", "DEFAULT_MAP_EMPTIED", "SIZED_INT_ENUM_REJECTS_ALL", "NULL_TO_ADDL_STRUCT_ERRORS"}
 
 // buildRule attributes a known compile failure: message pattern plus a predicate over the case axes.
 type buildRule struct {
@@ -28,7 +29,7 @@ type buildRule struct {
 var c09BuildRules = []buildRule{
 	{"DEFAULT_NULLABLE_LITERAL", regexp.MustCompile(`cannot use .* as \*\w+ value in assignment`), func(ax map[string]string) bool { return ax["nullable"] == "true" }},
 	{"DEFAULT_FORMAT_LITERAL", regexp.MustCompile(`cannot use "[^"]*" \(untyped string constant\) as (\*?)(netip\.Addr|time\.Time|types\.Serializable(Date|Time)) value in assignment`), func(ax map[string]string) bool { return ax["format"] != "" }},
-	{"DEFAULT_OBJECT_LITERAL", regexp.MustCompile(`(cannot use .* as (\*\w+|\w+) value in struct literal|unknown field \w+ in struct literal|cannot use map\[string\]interface ?\{\}.* as \w+ value in assignment|missing type in composite literal|invalid composite literal type)`), func(ax map[string]string) bool { return ax["kind"] == "object" }},
+	{"DEFAULT_OBJECT_LITERAL", regexp.MustCompile(`(cannot use .* as (\*\w+|\w+) value in struct literal|cannot use map\[string\]interface ?\{\}.* as \w+ value in assignment|missing type in composite literal|invalid composite literal type)`), func(ax map[string]string) bool { return ax["kind"] == "object" }},
 	{"DEFAULT_NESTED_ARRAY_LITERAL", regexp.MustCompile(`cannot use \[\]interface ?\{\}.* as \[\]\w+ value in (array or slice literal|assignment)`), func(ax map[string]string) bool { return ax["leaf"] == "array-array" }},
 	{"DEFAULT_MIXED_ENUM_LITERAL", regexp.MustCompile(`cannot use .* \(untyped \w+ constant.*\) as \w+ value in assignment`), func(ax map[string]string) bool { return ax["kind"] == "enum-wrapped" }},
 }
@@ -102,6 +103,8 @@ func c09Leaves(level int) []c09Leaf {
 		{"enum-int", "enum", "", J{"type": "integer", "enum": A{1, 2, 3}}, 2, false},
 		{"object-allreq", "object", "", J{"type": "object", "properties": J{"k": J{"type": "string"}, "n": J{"type": "integer"}}, "required": A{"k", "n"}}, J{"k": "v", "n": 3}, true},
 		{"object-someopt", "object", "", J{"type": "object", "properties": J{"k": J{"type": "string"}, "n": J{"type": "integer"}}, "required": A{"k"}}, J{"k": "v", "n": 3}, true},
+		{"object-key-spellings", "object", "", J{"type": "object", "properties": J{"my_key": J{"type": "string"}, "id": J{"type": "integer"}}, "required": A{"my_key", "id"}}, J{"my_key": "v", "id": 3}, true},
+		{"object-with-typed-additional", "object", "", J{"type": "object", "properties": J{"k": J{"type": "string"}}, "required": A{"k"}, "additionalProperties": J{"type": "string"}}, J{"k": "v"}, true},
 		{"map-str", "map", "", J{"type": "object", "additionalProperties": J{"type": "string"}}, J{"x": "y"}, true},
 		{"map-empty-default", "map", "", J{"type": "object", "additionalProperties": J{"type": "string"}}, J{}, true},
 		{"string-date", "string", "date", J{"type": "string", "format": "date"}, "2024-02-29", true},
@@ -123,7 +126,6 @@ func c09Leaves(level int) []c09Leaf {
 			c09Leaf{"any", "any", "", J{}, "x", false},
 			// an object default whose members carry constraints (the default satisfies them), and one whose keys are not plain lower-case words
 			c09Leaf{"object-constrained-members", "object", "", J{"type": "object", "properties": J{"k": J{"type": "string", "minLength": 2}, "n": J{"type": "integer", "minimum": 1}}, "required": A{"k", "n"}}, J{"k": "vv", "n": 3}, false},
-			c09Leaf{"object-key-spellings", "object", "", J{"type": "object", "properties": J{"my_key": J{"type": "string"}, "id": J{"type": "integer"}}, "required": A{"my_key", "id"}}, J{"my_key": "v", "id": 3}, true},
 		)
 	}
 	return ls
@@ -212,6 +214,14 @@ func c09Cases(level int) []SCase {
 func c09(ctx *Ctx) {
 	cases := c09Cases(ctx.Level)
 	runBehaviour(ctx, behaviour{Name: "defaults", Cases: cases, Devs: c09Devs, Values: true, Respell: true,
+		// null for an object with declared properties and typed additional properties: the struct's own unmarshaler hands a nil raw map to
+		// mapstructure before any default could apply (KF-C03-3; the model's rule for it is written for nullable objects)
+		KnownMismatch: func(sc *SCase, d *refmodel.Doc, o *drv.Obs) string {
+			if sc.Axes["leaf"] == "object-with-typed-additional" && strings.Contains(d.Class, "null") && strings.Contains(o.Err+o.Panic, "reflect.Set: value of type map[string]interface {}") {
+				return "NULL_TO_ADDL_STRUCT_ERRORS"
+			}
+			return respelledFormatEscape(sc, d, o)
+		},
 		OnBuildErr: func(sc *SCase, msg string) {
 			attributeBuild(ctx, sc, msg, c09BuildRules, map[string]any{"kind": "gen", "files": sc.Case().Files, "cfg": sc.Case().Cfg, "compiler": msg})
 		},
